@@ -205,6 +205,11 @@ func prettyPrintCompact(ps *PrintState, s Node, i int) bool {
 	}
 	_, prevIsExpr := ps.prev.(*InfixExpression)
 	_, curIsArray := s.(*ArrayLiteral)
+	// a lambda statement starting with its parameter list, like an array literal, must not touch the previous
+	// statement: f(1)(a,b)=>a would call the result of f(1).
+	if fl, ok := s.(*FunctionLiteral); ok && fl.IsLambda && len(fl.Parameters) != 1 {
+		curIsArray = true
+	}
 	// two statements a and b: without a separator the lexer would see the identifier ab.
 	prevEndsWord := ps.last != "" && isWordByte(ps.last[len(ps.last)-1])
 	if curIsArray || (prevIsExpr && ps.last != "}" && ps.last != "]") || prevEndsWord {
